@@ -66,7 +66,8 @@ def plan(tier, prop):
                             "context_object_reused",
                             "context_object_reentered_while_active",
                             "bmp_board_iterable", "discovery_under_faults",
-                            "bmp_led_iterable", "one_shot_iterable"],
+                            "bmp_led_iterable", "one_shot_iterable",
+                            "missing_chips"],
         "knob_ranges": {"boards": [1, 3, 6, 12], "root_offset": "0-11 each",
                         "eth_down": "0-30 % of boards",
                         "depth": "0-4", "items": "1-12"},
@@ -180,6 +181,18 @@ class CtxEngine(object):
                     if not (BOARD_ROWS[y][0] <= x <= BOARD_ROWS[y][1]):
                         continue
                 m.chips[(x, y)] = Chip(m, x, y, 18)
+        if nb > 1 and t.draw(3) == 0:
+            # a few chips are missing (never a board's Ethernet chip): the
+            # far corner first - the machine still spans the same dimensions
+            w.probe("missing_chips")
+            gone = []
+            if t.draw(2):
+                gone.append((width - 1, height - 1))
+            for _ in range(t.draw(3)):
+                gone.append((t.draw(width), t.draw(height)))
+            for xy in gone:
+                if xy not in eths and xy != root and xy in m.chips:
+                    del m.chips[xy]
         self.eth_ip = {}
         for i, e in enumerate(eths):
             ch = m.chips[e]
